@@ -77,6 +77,6 @@ if __name__ == "__main__":
     pat = sys.argv[1]
     crates = sys.argv[2].split(",") if len(sys.argv) > 2 else None
     prog = Program(d, crates)
-    for b in prog.all_bodies():
-        if pat in b.path:
-            dump(b)
+    for lz in prog.lazy:
+        if pat in lz.path:
+            dump(lz.get())
